@@ -135,6 +135,11 @@ DeepProbes == {PeekAllT, SeqE(<<Star(SeqE(<<NotP(PeekAllT), AnyC>>)), PeekAllT>>
 FamStackDeep(lz) == {[r |-> Rule("", SeqE(<<su, DeepOuter(SeqE(<<x1, x2, DeepInner(x3, x4, ni)>>), pr, no)>>))]
                    : x1 \in DeepOps, x2 \in DeepOps, x3 \in DeepOps, x4 \in DeepOps, su \in DeepSetups, pr \in DeepProbes, ni \in 1..4, no \in 1..4}
 
+\* "stackclear": pop below the checkpoint, push, POP_ALL (the bulk clear), all under ONE checkpoint that is then abandoned
+FamStackClear(lz) == {[r |-> Rule("", SeqE(<<su, DeepOuter(SeqE(<<x1, x2, PopAllT, x4>>), pr, no)>>))]
+                       : x1 \in {DropT, PopT, PeekT}, x2 \in {PushLit(<<c>>), PushE(Str(<<a>>)), PushLit(<<>>)}, x4 \in {PushLit(<<c>>), Str(<<a>>), Str(<<>>)},
+                         su \in DeepSetups, pr \in DeepProbes, no \in 1..4}
+
 \* a PEEK[a..b] whose indices can fall outside the stack is outside the checked domain:
 \* these families only use [..], [0..1] after a guaranteed push, [-1..] after a guaranteed push.
 \* (the first setup alternatives push at least one entry; Opt(PUSH("b")) may leave it empty, so
@@ -183,7 +188,7 @@ CiAtoms == {IStr(<<kk>>), IStr(<<KK>>), IStr(<<ss>>), IStr(<<kk, ss>>), IStr(<<s
 CiBodies(lz) == CiAtoms \cup {AltE(<<x, y>>) : x \in CiAtoms, y \in CiAtoms} \cup {Plus(AltE(<<x, y>>)) : x \in CiAtoms, y \in CiAtoms}
                 \cup {SeqE(<<x, y, Eoi>>) : x \in CiAtoms, y \in CiAtoms} \cup {AltE(<<x, y, z>>) : x \in {IStr(<<kk, ss>>), IStr(<<ss>>), Str(<<kk>>)}, y \in CiAtoms, z \in {IStr(<<kk>>), Str(<<ss, ss>>), IStr(<<eszett>>)}}
 CiPush == {PushE(IStr(<<kk>>)), PushE(IStr(<<kk, ss>>)), PushE(AltE(<<IStr(<<ss>>), Str(<<xx>>)>>)), PushE(Opt(IStr(<<KK>>)))}
-CiStackBodies(lz) == {SeqE(<<p, q>>) : p \in CiPush, q \in {PopT, PeekT, SeqE(<<PeekT, PopT, Eoi>>), PeekAllT, SeqE(<<PopAllT, Eoi>>), PeekSl(FALSE, 0, FALSE, 0), Star(PeekT)}}
+CiStackBodies(lz) == {SeqE(<<p, q>>) : p \in CiPush, q \in {PopT, PeekT, SeqE(<<PeekT, PopT, Eoi>>), PeekAllT, SeqE(<<PopAllT, Eoi>>), PeekSl(FALSE, 0, FALSE, 0), SeqE(<<PeekT, PeekT>>)}}      \* no PEEK*: an entry can be empty, and a repetition over it would not end
                      \cup {SeqE(<<p, p2, q>>) : p \in CiPush, p2 \in CiPush, q \in {PeekAllT, SeqE(<<PopT, PopT>>)}}
 FamCi(lz) == {[r |-> Rule("", x)] : x \in CiBodies(0) \cup CiStackBodies(0)}
 CiAlpha == {kk, KK, kelvin, ss, SS, longs, eszett, Eszett}
@@ -319,6 +324,7 @@ Grammars ==
     [] Family = "stack1"  -> FamStack1(0)
     [] Family = "stacke"  -> FamStackE(0)
     [] Family = "stackdeep" -> FamStackDeep(0)
+    [] Family = "stackclear" -> FamStackClear(0)
     [] Family = "tags"    -> FamTags(0)
     [] Family = "trivfx"  -> FamTrivFx(0)
     [] Family = "ci"      -> FamCi(0)
@@ -330,7 +336,7 @@ Alpha ==
   CASE Family \in {"core2", "core3", "core2nosoi", "core3nosoi"} -> CoreAlpha
     [] Family \in {"trivia2", "trivia3", "mods"} -> TrAlpha
     [] Family \in {"stack", "stack1", "stacke"} -> StkAlpha
-    [] Family = "stackdeep" -> {a, b, c}
+    [] Family \in {"stackdeep", "stackclear"} -> {a, b, c}
     [] Family = "tags" -> {a, b, sp}
     [] Family \in {"optsq", "optsk", "optinl"} -> {a, b, sp, A}
     [] Family = "opttrv" -> {a, b, sp}
